@@ -544,8 +544,12 @@ func (e *Engine) mapLen(st *State, m VMap) *Term {
 	}
 	pn, _ := mapHeapNames(m.K, m.V)
 	ph := e.heap(st, pn, HeapB)
-	n := App("maplen", IntS, Select(ph, m.Ref))
+	row := Select(ph, m.Ref)
+	n := App("maplen", IntS, row)
 	st.assume(Ge(n, Zero))
+	// a map of length 0 has no key
+	k := e.fresh("k", IntS)
+	st.assume(Forall([]*Term{k}, [][]*Term{{Select(row, k)}}, Implies(Eq(n, Zero), Not(Select(row, k)))))
 	return n
 }
 
